@@ -30,6 +30,10 @@ def rand_rows(rng, n, cols=COLS, style=None):
             r = {c: rand_frac(rng) for c in cols}
         elif style == "ints":
             r = {c: Fraction(rng.randint(0, 12)) for c in cols}
+        elif style == "smallpos":
+            r = {c: Fraction(rng.randint(1, 12), rng.choice([1, 1, 2, 4])) for c in cols}
+        elif style == "smallgen":
+            r = {c: Fraction(rng.randint(-9, 12), rng.choice([1, 2, 3])) for c in cols}
         elif style == "positive":
             r = {c: Fraction(rng.randint(1, 60), rng.randint(1, 7)) for c in cols}
         elif style == "offset":
